@@ -112,7 +112,7 @@ theorem c03_captures (s : Repo) (hinv : RepoInv s) (hasDefault : Bool) (q : ReqV
     (ps : List (String × String)) (h : s.findRule hasDefault q = .rule v ps) :
     ∃ r ∈ s.known, ∃ rt ∈ r.cfg.routes, ∃ pat keys caps,
       parsePat rt.1 = .ok (pat, keys) ∧
-      v = ⟨r.cfg.id, r.src, r.cfg.esh, rt.2⟩ ∧
+      v = ⟨r.cfg.id, r.src, r.cfg.esh, rt.2, r.cfg.ver⟩ ∧
       matchCaps pat (tokenize (lookupPath q)) = some caps ∧
       routeMatches rt.2 q keys caps = true ∧
       ps = (keys.zip caps).filter (fun kv => kv.1 ≠ "*") := by
